@@ -49,6 +49,14 @@ def cmd_check(prop: str, tier: str) -> int:
                 g = thorough_gir(prop, run)
                 if g is not None:
                     run.extra["gir"] = g
+                    # the machinery distrusts itself: a call the compiler sees and the parser does not (G2), or an exceptional edge the
+                    # compiler has and the SRC CFG lacks (G3), makes the verdict unreliable -> ANALYSIS-ERROR, never a silent pass
+                    for m in list(g.get("g2_missing_in_src", []))[:5]:
+                        run.errors.append(f"gir-mismatch G2: {m}")
+                    for m in list(g.get("g3_noexcept_with_eh", []))[:5]:
+                        run.errors.append(f"gir-mismatch G3: {m}")
+                    if not g.get("skipped") and g.get("functions_checked", 0) == 0:
+                        run.errors.append("gir: no analysed function could be matched in the compiler's dump")
             except AnalysisError as e:
                 run.errors.append(str(e))
         return run.finish(mod.EXPLANATION, mod.ASSUMPTIONS, mod.TECHNIQUE)
